@@ -96,19 +96,87 @@ Record wf_tree (ecma : bool) (t : ptree) : Prop := {
     end
 }.
 
-Section Lookups.
-  Variable ecma : bool.
+(* the part of [wf_tree] that is about the group NUMBERS only: enough for number -> slot *)
+Record wf_caps (t : ptree) : Prop := {
+  wc_sorted : ssorted (t_caps t);
+  wc_zero : exists r, t_caps t = 0 :: r;
+  wc_dense : t_capnumlist t = None -> t_caps t = zrange (t_captop t);
+  wc_sparse : forall nl, t_capnumlist t = Some nl -> nl = t_caps t /\ t_captop t <> zlen nl
+}.
+
+Lemma wf_tree_caps : forall ecma t, wf_tree ecma t -> wf_caps t.
+Proof. intros ecma t [H1 H2 H3 H4 _]. constructor; assumption. Qed.
+
+(* The weaker entry that holds without any guard: the name listed for group j is a key of Capnames;
+   it holds j, OR the name is the numeral of j — an unnamed group, called by its number — while the
+   same numeral is already the NAME of another group (MaintainCaptureOrder files "(?<2>" under the
+   name "2": known finding mco_digit_names). *)
+Definition names_entry_weak (ecma : bool) (m : nmap) (s : name) (j : Z) : Prop :=
+  (ecma = true /\ s = []) \/ (s <> [] /\ exists v, aget s m = Some v /\ (v = j \/ s = itoa j)).
+
+Lemma names_entry_weaken : forall ecma m s j, names_entry ecma m s j -> names_entry_weak ecma m s j.
+Proof. intros ecma m s j [H|[H1 H2]]; [now left|right]. split; [assumption|]. exists j. auto. Qed.
+
+Record wf_weak (ecma : bool) (t : ptree) : Prop := {
+  ww_caps : wf_caps t;
+  ww_names :
+    match t_caplist t, t_capnames t with
+    | Some l, Some m =>
+        Forall2 (names_entry_weak ecma m) l (t_caps t)
+        /\ (ecma = true -> aget [] m = None)
+        /\ (exists r, l = (if ecma then [] else itoa 0) :: r)
+    | None, None => t_capnumlist t = None /\ ecma = false
+    | _, _ => False
+    end
+}.
+
+Lemma Forall2_impl_gm : forall {A B} (R R' : A -> B -> Prop) l l',
+  (forall a b, R a b -> R' a b) -> Forall2 R l l' -> Forall2 R' l l'.
+Proof. intros A B R R' l l' HI H. induction H; constructor; auto. Qed.
+
+Lemma wf_tree_weak : forall ecma t, wf_tree ecma t -> wf_weak ecma t.
+Proof.
+  intros ecma t WF. constructor; [exact (wf_tree_caps ecma t WF)|].
+  pose proof (wt_names _ _ WF) as W.
+  destruct (t_caplist t) as [l|]; destruct (t_capnames t) as [m|]; try contradiction; [|assumption].
+  destruct W as [F [H1 H2]]. split; [|split; assumption].
+  eapply Forall2_impl_gm; [|exact F]. intros a b. apply names_entry_weaken.
+Qed.
+
+(* what the lookups by position need of the name list: its length and its head *)
+Definition names_shape (ecma : bool) (t : ptree) : Prop :=
+  match t_caplist t, t_capnames t with
+  | Some l, Some m => length l = length (t_caps t) /\ (exists r, l = (if ecma then [] else itoa 0) :: r)
+                      /\ (ecma = false -> forall s, In s l -> s <> [])
+  | None, None => t_capnumlist t = None /\ ecma = false
+  | _, _ => False
+  end.
+
+Lemma Forall2_len_gm : forall {A B} (R : A -> B -> Prop) l l', Forall2 R l l' -> length l = length l'.
+Proof. intros A B R l l' H. induction H; cbn; congruence. Qed.
+
+Lemma wf_weak_shape : forall ecma t, wf_weak ecma t -> names_shape ecma t.
+Proof.
+  intros ecma t [_ W]. unfold names_shape.
+  destruct (t_caplist t) as [l|]; destruct (t_capnames t) as [m|]; try contradiction; [|assumption].
+  destruct W as [F [_ H2]]. split; [apply (Forall2_len_gm _ _ _ F)|]. split; [assumption|].
+  intros He s Hs. clear H2. induction F as [|a b l' c' Hab F IH]; [destruct Hs|].
+  destruct Hs as [<-|Hs]; [|auto]. destruct Hab as [[E _]|[Hne _]]; [congruence|assumption].
+Qed.
+
+(* ---------- number -> slot: needs the numbers only ---------- *)
+Section CapsLookups.
   Variable t : ptree.
-  Hypothesis WF : wf_tree ecma t.
+  Hypothesis WF : wf_caps t.
   Let r := compile_maps t.
   Let caps := t_caps t.
 
   Lemma caps_nodup : NoDup caps.
-  Proof. apply ssorted_NoDup, (wt_sorted _ _ WF). Qed.
+  Proof. apply ssorted_NoDup, (wc_sorted _ WF). Qed.
 
   Lemma caps_nonneg : forall k, In k caps -> 0 <= k.
   Proof.
-    intros k Hk. destruct (wt_zero _ _ WF) as [rest E]. pose proof (wt_sorted _ _ WF) as Hs.
+    intros k Hk. destruct (wc_zero _ WF) as [rest E]. pose proof (wc_sorted _ WF) as Hs.
     unfold caps in *. rewrite E in *. inversion Hs as [|? ? _ Hf]; subst.
     destruct Hk as [<-|Hk]; [lia|]. rewrite Forall_forall in Hf. specialize (Hf _ Hk). lia.
   Qed.
@@ -119,10 +187,10 @@ Section Lookups.
     \/ (t_capnumlist t = Some caps /\ r_caps r = Some (combine caps (zrange (zlen caps))) /\ r_capsize r = zlen caps).
   Proof.
     unfold r, compile_maps, caps. destruct (t_capnumlist t) as [nl|] eqn:E.
-    - right. destruct (wt_sparse _ _ WF nl E) as [-> Hne].
+    - right. destruct (wc_sparse _ WF nl E) as [-> Hne].
       destruct (t_captop t =? zlen (t_caps t)) eqn:E2; [apply Z.eqb_eq in E2; contradiction|].
       cbn. auto.
-    - left. cbn. repeat split; auto. apply (wt_dense _ _ WF E).
+    - left. cbn. repeat split; auto. apply (wc_dense _ WF E).
   Qed.
 
   Lemma capsize_len : r_capsize r = zlen caps.
@@ -131,7 +199,7 @@ Section Lookups.
     rewrite H1. unfold zlen. rewrite H2, zrange_length.
     assert (0 <= t_captop t).
     { destruct (Z_le_gt_dec 0 (t_captop t)); [assumption|]. exfalso.
-      destruct (wt_zero _ _ WF) as [rest E]. fold caps in E. rewrite H2 in E.
+      destruct (wc_zero _ WF) as [rest E]. fold caps in E. rewrite H2 in E.
       unfold zrange in E. replace (Z.to_nat (t_captop t)) with 0%nat in E by lia. discriminate. }
     lia.
   Qed.
@@ -211,40 +279,50 @@ Section Lookups.
       exact F.
   Qed.
 
-  (* ---- names ---- *)
   Definition names := get_group_names r.
 
-  Lemma names_length : length names = length caps.
+End CapsLookups.
+
+(* ---------- lookups by position: need the numbers and the shape of the name list ---------- *)
+Section ShapeLookups.
+  Variable ecma : bool.
+  Variable t : ptree.
+  Hypothesis WC : wf_caps t.
+  Hypothesis WS : names_shape ecma t.
+  Let r := compile_maps t.
+  Let caps := t_caps t.
+
+  Lemma names_length : length (names t) = length caps.
   Proof.
-    unfold names, get_group_names. destruct r_names as [_ ->].
-    pose proof (wt_names _ _ WF) as W.
+    unfold names, get_group_names. destruct (r_names t) as [_ ->].
+    pose proof WS as W. unfold names_shape in W.
     destruct (t_caplist t) as [l|]; destruct (t_capnames t) as [m|]; try contradiction.
-    - destruct W as [F _]. apply (Forall2_len _ _ _ F).
-    - rewrite map_length, zrange_length, capsize_len. unfold zlen. lia.
+    - now destruct W as [F _].
+    - rewrite map_length, zrange_length, (capsize_len t WC). unfold zlen. fold caps. lia.
   Qed.
 
-  (* the name listed at index i is the name of the number listed at index i, both ways *)
+  (* the name listed at index i is the name of the number listed at index i *)
   Lemma name_from_number_spec : forall i k, nth_error caps i = Some k ->
-    group_name_from_number r k = nth i names [].
+    group_name_from_number r k = nth i (names t) [].
   Proof.
-    intros i k Hn. unfold group_name_from_number, names, get_group_names.
+    intros i k Hn. unfold group_name_from_number, names, get_group_names. fold r.
     assert (Hi : (i < length caps)%nat) by (apply nth_error_Some; congruence).
-    pose proof names_length as NL. unfold names, get_group_names in NL.
-    destruct r_names as [_ Hl]. rewrite Hl in *.
+    pose proof names_length as NL. unfold names, get_group_names in NL. fold r in NL.
+    destruct (r_names t) as [_ Hl]. fold r in Hl. rewrite Hl in *.
     destruct (t_caplist t) as [l|] eqn:El.
     - assert (Hidx : match r_caps r with Some m => zget k m | None => Some k end = Some (Z.of_nat i)).
-      { destruct maps_shape as [[_ [Hc [Hs Hz]]]|[_ [Hc Hs]]]; rewrite Hc.
-        - rewrite Hz in Hn. rewrite zrange_nth in Hn by (rewrite Hz, zrange_length in Hi; assumption). congruence.
-        - rewrite (zget_combine_nth caps (zrange (zlen caps)) k i caps_nodup); [|rewrite zrange_length; unfold zlen; lia|assumption].
+      { destruct (maps_shape t WC) as [[_ [Hc [Hs Hz]]]|[_ [Hc Hs]]]; fold r in Hc, Hs; fold caps in Hc; rewrite Hc.
+        - fold caps in Hz. rewrite Hz in Hn. rewrite zrange_nth in Hn by (rewrite Hz, zrange_length in Hi; assumption). congruence.
+        - rewrite (zget_combine_nth caps (zrange (zlen caps)) k i (caps_nodup t WC)); [|rewrite zrange_length; unfold zlen; lia|assumption].
           apply zrange_nth. unfold zlen. lia. }
       rewrite Hidx.
       destruct (0 <=? Z.of_nat i) eqn:E1; [|apply Z.leb_gt in E1; lia].
       destruct (Z.of_nat i <? zlen l) eqn:E2; [|apply Z.ltb_ge in E2; unfold zlen in E2; lia].
       cbn. now rewrite Nat2Z.id.
     - (* dense, no table *)
-      pose proof (wt_names _ _ WF) as W. rewrite El in W. destruct (t_capnames t); [contradiction|].
+      pose proof WS as W. unfold names_shape in W. rewrite El in W. destruct (t_capnames t); [contradiction|].
       destruct W as [Hnone _].
-      destruct maps_shape as [[_ [Hc [Hs Hz]]]|[Hsome _]]; [|congruence].
+      destruct (maps_shape t WC) as [[_ [Hc [Hs Hz]]]|[Hsome _]]; [|congruence]. fold r in Hc, Hs. fold caps in Hz.
       rewrite Hz in Hn, Hi. rewrite zrange_length in Hi. rewrite zrange_nth in Hn by assumption. injection Hn as <-.
       rewrite Hs.
       destruct (0 <=? Z.of_nat i) eqn:E1; [|apply Z.leb_gt in E1; lia].
@@ -254,11 +332,58 @@ Section Lookups.
       rewrite map_nth, seq_nth by assumption. reflexivity.
   Qed.
 
-  Lemma number_from_name_spec : forall i k s, nth_error caps i = Some k -> nth_error names i = Some s ->
+  (* Match.Groups(): element i carries the name listed at index i *)
+  Lemma groups_names_spec : groups_names ecma r = names t.
+  Proof.
+    unfold groups_names, names, get_group_names, group_name_from_slot. fold r.
+    destruct (r_names t) as [_ Hl]. fold r in Hl. rewrite Hl.
+    pose proof WS as W. unfold names_shape in W.
+    pose proof names_length as NL. unfold names, get_group_names in NL. fold r in NL. rewrite Hl in NL.
+    destruct (t_caplist t) as [l|] eqn:El; destruct (t_capnames t) as [m|] eqn:Em; try contradiction.
+    - destruct W as [_ [[rest Hhd] _]].
+      unfold r. rewrite (capsize_len t WC). unfold zlen. fold caps. rewrite <- NL.
+      apply nth_error_ext_eq. intros n. rewrite nth_error_map.
+      destruct (Nat.lt_ge_cases n (length l)) as [Hn|Hn].
+      + rewrite zrange_nth by (now rewrite Nat2Z.id). cbn [option_map].
+        destruct n as [|n].
+        * cbn. rewrite Hhd. reflexivity.
+        * destruct (Z.of_nat (S n) =? 0) eqn:E0; [apply Z.eqb_eq in E0; lia|].
+          destruct (0 <=? Z.of_nat (S n)) eqn:E1; [|apply Z.leb_gt in E1; lia].
+          unfold zlen.
+          destruct (Z.of_nat (S n) <? Z.of_nat (length l)) eqn:E2; [|apply Z.ltb_ge in E2; lia].
+          cbn [andb]. rewrite Nat2Z.id. symmetry. now apply nth_error_nth'.
+      + rewrite zrange_nth_none by (now rewrite Nat2Z.id). cbn. symmetry. now apply nth_error_None.
+    - destruct W as [_ He]. subst ecma.
+      apply map_ext_in. intros i Hi. destruct (i =? 0) eqn:E; [apply Z.eqb_eq in E; now subst|reflexivity].
+  Qed.
+
+  (* outside ECMAScript every group has a non-empty name *)
+  Lemma names_nonempty : ecma = false -> forall s, In s (names t) -> s <> [].
+  Proof.
+    intros He s Hs. unfold names, get_group_names in Hs. fold r in Hs. destruct (r_names t) as [_ Hl]. fold r in Hl. rewrite Hl in Hs.
+    pose proof WS as W. unfold names_shape in W.
+    destruct (t_caplist t) as [l|]; destruct (t_capnames t) as [m|]; try contradiction.
+    - destruct W as [_ [_ H3]]. now apply H3.
+    - apply in_map_iff in Hs. destruct Hs as [i [<- Hi]]. apply zrange_In in Hi. apply itoa_nonempty. lia.
+  Qed.
+
+End ShapeLookups.
+
+(* ---------- the name <-> number round trips: need every entry of the name list ---------- *)
+Section Lookups.
+  Variable ecma : bool.
+  Variable t : ptree.
+  Hypothesis WF : wf_tree ecma t.
+  Let WC : wf_caps t := wf_tree_caps ecma t WF.
+  Let WS : names_shape ecma t := wf_weak_shape ecma t (wf_tree_weak ecma t WF).
+  Let r := compile_maps t.
+  Let caps := t_caps t.
+
+  Lemma number_from_name_spec : forall i k s, nth_error caps i = Some k -> nth_error (names t) i = Some s ->
     (ecma = true /\ s = []) \/ (s <> [] /\ group_number_from_name r s = k).
   Proof.
-    intros i k s Hn Hs. unfold group_number_from_name. unfold names, get_group_names in Hs.
-    destruct r_names as [Hm Hl]. rewrite Hm. rewrite Hl in Hs.
+    intros i k s Hn Hs. unfold group_number_from_name. unfold names, get_group_names in Hs. fold r in Hs.
+    destruct (r_names t) as [Hm Hl]. fold r in Hm, Hl. rewrite Hm. rewrite Hl in Hs.
     pose proof (wt_names _ _ WF) as W.
     destruct (t_caplist t) as [l|] eqn:El; destruct (t_capnames t) as [m|] eqn:Em; try contradiction.
     - destruct W as [F _].
@@ -268,7 +393,7 @@ Section Lookups.
         - destruct i; cbn in *; [congruence|eauto]. }
       destruct Hent as [He|[Hne Hg]]; [now left|right]. split; [assumption|]. now rewrite Hg.
     - right.
-      destruct maps_shape as [[_ [Hc [Hsz Hz]]]|[Hsome _]]; [|destruct W; congruence].
+      destruct (maps_shape t WC) as [[_ [Hc [Hsz Hz]]]|[Hsome _]]; [|destruct W; congruence]. fold r in Hc, Hsz. fold caps in Hz.
       assert (Hi : (i < length caps)%nat) by (apply nth_error_Some; congruence).
       rewrite Hz in Hn, Hi. rewrite zrange_length in Hi. rewrite zrange_nth in Hn by assumption. injection Hn as <-.
       rewrite nth_error_map in Hs. rewrite Hsz in Hs. rewrite zrange_nth in Hs by assumption. cbn in Hs. injection Hs as <-.
@@ -284,21 +409,21 @@ Section Lookups.
     (ecma = true /\ s = []) \/ (s <> [] /\ group_number_from_name r s = k).
   Proof.
     intros k Hk. cbn zeta. destruct (In_nth_error _ _ Hk) as [i Hi].
-    rewrite (name_from_number_spec i k Hi).
-    assert (Hlt : (i < length names)%nat) by (rewrite names_length; apply nth_error_Some; congruence).
+    unfold r. rewrite (name_from_number_spec ecma t WC WS i k Hi).
+    assert (Hlt : (i < length (names t))%nat) by (rewrite (names_length ecma t WC WS); apply nth_error_Some; fold caps; congruence).
     apply (number_from_name_spec i k _ Hi). now apply nth_error_nth'.
   Qed.
 
   (* name -> number -> name, for every listed name *)
-  Lemma name_number_name : forall s, In s names -> s <> [] ->
+  Lemma name_number_name : forall s, In s (names t) -> s <> [] ->
     In (group_number_from_name r s) caps /\ group_name_from_number r (group_number_from_name r s) = s.
   Proof.
     intros s Hs Hne. destruct (In_nth_error _ _ Hs) as [i Hi].
-    assert (Hlt : (i < length caps)%nat) by (rewrite <- names_length; apply nth_error_Some; congruence).
+    assert (Hlt : (i < length caps)%nat) by (unfold caps; rewrite <- (names_length ecma t WC WS); apply nth_error_Some; congruence).
     destruct (nth_error caps i) as [k|] eqn:Hk; [|apply nth_error_None in Hk; lia].
     destruct (number_from_name_spec i k s Hk Hi) as [[_ He]|[_ Hg]]; [contradiction|].
     rewrite Hg. split; [eapply nth_error_In; eauto|].
-    rewrite (name_from_number_spec i k Hk). now apply nth_error_nth.
+    unfold r. rewrite (name_from_number_spec ecma t WC WS i k Hk). now apply nth_error_nth.
   Qed.
 
   (* GroupByName is GroupByNumber of the looked-up number (and nil when there is no such name) *)
@@ -306,40 +431,15 @@ Section Lookups.
     group_by_name r s = if group_number_from_name r s <? 0 then None else group_by_number r (group_number_from_name r s).
   Proof. reflexivity. Qed.
 
-  Lemma group_by_name_listed : forall i k s, nth_error caps i = Some k -> nth_error names i = Some s -> s <> [] ->
+  Lemma group_by_name_listed : forall i k s, nth_error caps i = Some k -> nth_error (names t) i = Some s -> s <> [] ->
     group_by_name r s = Some (Z.of_nat i) /\ group_by_number r k = Some (Z.of_nat i).
   Proof.
     intros i k s Hk Hs Hne.
     destruct (number_from_name_spec i k s Hk Hs) as [[_ He]|[_ Hg]]; [contradiction|].
-    pose proof (group_by_number_spec i k Hk) as Hb. split; [|assumption].
+    pose proof (group_by_number_spec t WC i k Hk) as Hb. fold r in Hb. split; [|assumption].
     rewrite group_by_name_spec, Hg.
-    pose proof (caps_nonneg k (nth_error_In _ _ Hk)).
+    pose proof (caps_nonneg t WC k (nth_error_In _ _ Hk)).
     destruct (k <? 0) eqn:E; [apply Z.ltb_lt in E; lia|assumption].
-  Qed.
-
-  (* Match.Groups(): element i carries the name listed at index i *)
-  Lemma groups_names_spec : groups_names ecma r = names.
-  Proof.
-    unfold groups_names, names, get_group_names, group_name_from_slot.
-    destruct r_names as [_ Hl]. rewrite Hl.
-    pose proof (wt_names _ _ WF) as W.
-    pose proof names_length as NL. unfold names, get_group_names in NL. rewrite Hl in NL.
-    destruct (t_caplist t) as [l|] eqn:El; destruct (t_capnames t) as [m|] eqn:Em; try contradiction.
-    - destruct W as [_ [_ [rest Hhd]]].
-      rewrite capsize_len. unfold zlen. rewrite <- NL.
-      apply nth_error_ext_eq. intros n. rewrite nth_error_map.
-      destruct (Nat.lt_ge_cases n (length l)) as [Hn|Hn].
-      + rewrite zrange_nth by (now rewrite Nat2Z.id). cbn [option_map].
-        destruct n as [|n].
-        * cbn. rewrite Hhd. reflexivity.
-        * destruct (Z.of_nat (S n) =? 0) eqn:E0; [apply Z.eqb_eq in E0; lia|].
-          destruct (0 <=? Z.of_nat (S n)) eqn:E1; [|apply Z.leb_gt in E1; lia].
-          unfold zlen.
-          destruct (Z.of_nat (S n) <? Z.of_nat (length l)) eqn:E2; [|apply Z.ltb_ge in E2; lia].
-          cbn [andb]. rewrite Nat2Z.id. symmetry. now apply nth_error_nth'.
-      + rewrite zrange_nth_none by (now rewrite Nat2Z.id). cbn. symmetry. now apply nth_error_None.
-    - destruct W as [_ He]. subst ecma.
-      apply map_ext_in. intros i Hi. destruct (i =? 0) eqn:E; [apply Z.eqb_eq in E; now subst|reflexivity].
   Qed.
 
 End Lookups.
